@@ -356,21 +356,19 @@ def main():
         ck.sample({"id": x["id"], "context": x["ctx"], "declaration": x["src"], "call": x["callrepr"],
                    "python_binds": x["r"].get("py", {}).get("bindable"), "decorated_ok": x["r"].get("ok"), "body_entered": x["r"].get("body"),
                    "events": [(e["ev"], e["v"]["n"] if e["v"]["k"] in ("int", "lit") else e["v"]["s"]) for e in x["r"].get("dec", [])][:8]})
-    for t in r.tagged("VIOL"):
-        x = byid[t[1]]
-        if x["kind"] == "gen":
-            key = "C08|generator-protocol|%s|%s" % (x["ctx"], "with-send" if any(s is not None for s in json.loads(x["callrepr"].replace("None", "null").replace("'", '"'))) else "next-only")
-        else:
-            kinds = {p["kind"] for p in x["sig"]}
-            feat = [f for f, c in (("private", any(p["priv"] for p in x["sig"])), ("alias", any(len(p["keys"]) > 1 for p in x["sig"])),
-                                   ("posonly", "po" in kinds), ("varargs", "va" in kinds), ("varkw", "vk" in kinds)) if c]
-            key = "C08|%s|%s|%s" % (t[2], x["ctx"], "+".join(feat) or "plain")
-            po = [p for p in x["sig"] if p["kind"] == "po"]
-            npos = len(x["call"]["pos"])
-            if t[2] == "wrong-binding" and any(po[i]["priv"] and po[i]["hasdef"] and i >= npos and
-                                               any(not q["priv"] and q["hasdef"] for q in po[i + 1:]) for i in range(len(po))):
-                key = "C08|wrong-binding|omitted-private-positional-only-default"
-        ck.violation(key, t[2], x)
+    from . import funcwrap
+    ru, flagged = funcwrap.stage(ck, thorough)
+    for res, ids in ((r, byid), (ru, flagged)):
+        for t in res.tagged("VIOL"):
+            x = ids[t[1]]
+            ck.violation(viol_key(t, x), t[2], x)
+    dv = ru.tagged("DIV")
+    if dv:
+        ck.count("divergences", len(dv))
+        for t in dv[:5]:
+            ck.note("divergence: M (the wrapper as transcribed in FuncWrap.tla) differs from the code on %s %s" % (flagged[t[1]]["src"], flagged[t[1]]["callrepr"]))
+    byid.update(flagged)
+    r.tuples.extend(t for t in ru.tuples if t[0] == "MVIOL")
     mv = r.tagged("MVIOL")
     if mv:
         ck.count("pybind_reference_disagrees_with_python", len(mv))
@@ -385,6 +383,21 @@ def main():
                       "underscore-prefixed parameters are not passed by keyword (ignored by design, docs: private parameters)",
                       "declared defaults are trusted and not converted"]
     return ck.finish()
+
+
+def viol_key(t, x):
+    if x["kind"] == "gen":
+        return "C08|generator-protocol|%s|%s" % (x["ctx"], "with-send" if any(s is not None for s in json.loads(x["callrepr"].replace("None", "null").replace("'", '"'))) else "next-only")
+    kinds = {p["kind"] for p in x["sig"]}
+    feat = [f for f, c in (("private", any(p["priv"] for p in x["sig"])), ("alias", any(len(p["keys"]) > 1 for p in x["sig"])),
+                           ("posonly", "po" in kinds), ("varargs", "va" in kinds), ("varkw", "vk" in kinds)) if c]
+    key = "C08|%s|%s|%s" % (t[2], x["ctx"], "+".join(feat) or "plain")
+    po = [p for p in x["sig"] if p["kind"] == "po"]
+    npos = len(x["call"]["pos"])
+    if t[2] == "wrong-binding" and any(po[i]["priv"] and po[i]["hasdef"] and i >= npos and
+                                       any(not q["priv"] and q["hasdef"] for q in po[i + 1:]) for i in range(len(po))):
+        key = "C08|wrong-binding|omitted-private-positional-only-default"
+    return key
 
 
 def replay(path):
